@@ -344,38 +344,62 @@ def near_variant_of(rng, prog, tid):
     return q
 
 
-def comment_lookalike_pair(rng, prog, tid_a, tid_b):
-    """Two texts that are identical except INSIDE the comment-looking part of one string literal
-    ('x // a' vs 'x // b', or 'x /* a */' vs 'x /* b */'); the literal is followed by a line break, so a naive
-    comment stripper maps both to the same text although they are different experiments (different group label / salt)."""
+LOOKALIKE_TAILS = {
+    # style: (tail of text A, tail of text B) appended to one string literal; everything else is identical
+    "line": (" // a1", " // b2"),             # differs only after a comment-looking '//' inside the literal
+    "block": (" /* a1 */", " /* b2 */"),
+    "nfc": (" \u00e9", " e\u0301"),           # same after unicode normalisation
+    "space": (" a b", " a  b"),               # same after collapsing whitespace
+    "tab": (" a b", " a\tb"),
+    "case": (" ab", " aB"),                   # same after case folding
+    "nonascii": ("", "\u00e9"),               # same after encode(errors='ignore')
+    "strip": ("", " "),                       # same after stripping the literal
+}
+
+
+def lookalike_pair(rng, prog, tid_a, tid_b, style=None):
+    """Two texts that are identical except in ONE string literal (a group label or the salt), where they differ only in a
+    way that a careless normalisation of the source (comment stripping, whitespace collapsing, case folding, unicode
+    normalisation, lossy encoding) would erase. The literal is followed by a line break, so a naive comment stripper maps
+    both to the same text although they are different experiments. style 'weight': one weight digit differs instead
+    (same length, same prefix)."""
     toks = list(prog.tokens)
     idx = [i for i, t in enumerate(toks) if len(t) >= 2 and t[0] in "\"'" and t[-1] == t[0]]
-    if not idx:
+    style = style or rng.choice(list(LOOKALIKE_TAILS) + ["weight"])
+    widx = [i for i, t in enumerate(toks) if i > 0 and toks[i - 1] == "weighted" and t.isdigit()]
+    if style == "weight" and not widx:
+        style = "line"
+    if style != "weight" and not idx:
         return None
-    i = rng.choice(idx)
-    style = rng.choice(["line", "block"])
+    i = rng.choice(widx if style == "weight" else idx)
     quote = rng.choice(["'", '"'])
     body = toks[i][1:-1]
     out = []
     layout_seed = rng.randrange(1 << 30)
-    for tid, tail in ((tid_a, "a1"), (tid_b, "b2")):
+    import random as _random
+
+    for n, tid in enumerate((tid_a, tid_b)):
         q = Program()
         q.tid = tid
         q.name, q.salt, q.splitters = prog.name, prog.salt, list(prog.splitters)
         q.cond_fields, q.literals, q.n_returns = list(prog.cond_fields), dict(prog.literals), prog.n_returns
         t2 = list(toks)
-        lit = body + (" // " + tail if style == "line" else " /* " + tail + " */")
-        t2[i] = quote + lit + quote + "\n"          # the line break belongs to the token: both texts share the layout
-        if i >= 2 and toks[i - 1] == ":" and toks[i - 2] == "salt":
-            q.salt = lit
+        if style == "weight":
+            t2[i] = str((int(toks[i]) % 9) + 1) if n else str(((int(toks[i]) + 3) % 9) + 1)
+        else:
+            lit = body + LOOKALIKE_TAILS[style][n]
+            t2[i] = quote + lit + quote + "\n"      # the line break belongs to the token: both texts share the layout
+            if i >= 2 and toks[i - 1] == ":" and toks[i - 2] == "salt":
+                q.salt = lit
         q.tokens = t2
-        import random as _random
-
         q.text = render(_random.Random(layout_seed), t2, p_comment=0.0, compact=True)
         q.kind = "valid"
-        q.note = "comment-lookalike (%s) of %s" % (style, prog.tid)
+        q.note = "lookalike (%s) of %s" % (style, prog.tid)
         out.append(q)
     return out
+
+
+comment_lookalike_pair = lookalike_pair
 
 
 # ---------------------------------------------------------------------------
